@@ -1109,10 +1109,15 @@ func runRtspOnce(c RtspCase) *pbt.Violation {
 		conn.WaitPeerIdle(lalclient.IdleTimeout)
 		responses := collectResponses(conn, nPrefix)
 		if ok := strings.Count(responses, "RTSP/1.0 200"); ok < nPrefix {
-			if c.PrefixSdp != nil {
+			switch {
+			case c.PrefixSdp != nil:
 				note("rtsp-command/shallow:hostile-prefix-sdp-refused")
-			} else {
-				note("rtsp-command/shallow:valid-prefix-refused")
+			case c.Udp:
+				note("rtsp-command/shallow:valid-udp-prefix-refused") // lal could not get a pair of UDP ports: environment
+			default:
+				// the reference exchange is valid by construction and independent of the environment: if lal refuses it
+				// the hostile tail is never reached and the case proves nothing.  Never silently.
+				lalclient.Harness("c13: lal answered %d of the %d requests of the valid prefix (stage %s) with 200; responses:\n%s", ok, nPrefix, c.Stage, head(responses, 1500))
 			}
 		} else {
 			note("rtsp-command/prefix-accepted")
